@@ -284,7 +284,7 @@ End StepShape.
 
 Lemma schema_ok_fields sc i fs : schema_ok sc = true -> nth_error sc i = Some fs -> forallb (field_ok sc) fs = true.
 Proof.
-  intros Hs Hn. unfold schema_ok in Hs. rewrite forallb_forall in Hs. apply nth_error_In in Hn. specialize (Hs fs Hn).
+  intros Hs Hn. unfold schema_ok in Hs. apply andb_prop in Hs. apply proj1 in Hs. rewrite forallb_forall in Hs. apply nth_error_In in Hn. specialize (Hs fs Hn).
   unfold msgdesc_ok in Hs. apply andb_prop in Hs. destruct Hs as [Hs _]. apply andb_prop in Hs. tauto.
 Qed.
 
